@@ -50,6 +50,15 @@ var xlDomWhitelist = []xlFunc{
 	{Pkg: "dom", Name: "mergeListsAppend", Lean: "mergeListsAppend", Fuel: []string{"$1.Size()+1", "$2.Size()+1"}},
 	{Pkg: "dom", Recv: "merger", Name: "mergeContainers", Lean: "mergeContainers", Flatten: true, RecFuel: "GoDom.sizeC $2 + 1"},
 	{Pkg: "dom", Recv: "merger", Name: "mergeListsMeld", Lean: "mergeListsMeld", Flatten: true, Fuel: []string{"$1.Size()+$2.Size()+1", "$1.Size()+$2.Size()+1", "$1.Size()+$2.Size()+1"}},
+	// dom/leaf.go, dom/list.go, dom/container.go: Equals / Clone with the dynamic dispatch of the interface calls  [C05]
+	{Pkg: "dom", Recv: "leaf", Name: "Equals", Lean: "leafEquals", Nullable: []string{"node"}},
+	{Pkg: "dom", Recv: "listImpl", Name: "Equals", Lean: "listEquals", Nullable: []string{"node"}, Fuel: []string{"len($0.items)+1"}, RecFuel: "2 * GoDom.sizeL $0 + 2", RecGroup: "equals"},
+	{Pkg: "dom", Recv: "containerImpl", Name: "Equals", Lean: "containerEquals", Nullable: []string{"node"}, RecFuel: "2 * GoDom.sizeC $0 + 2", RecGroup: "equals"},
+	{Pkg: "dom", Name: "Equals", Lean: "Equals", Dispatch: "Node", RecFuel: "2 * GoDom.sizeN $1 + 1", RecGroup: "equals"},
+	{Pkg: "dom", Recv: "leaf", Name: "Clone", Lean: "leafClone"},
+	{Pkg: "dom", Recv: "listImpl", Name: "Clone", Lean: "listClone", RecFuel: "2 * GoDom.sizeL $0 + 2", RecGroup: "clone"},
+	{Pkg: "dom", Recv: "containerImpl", Name: "Clone", Lean: "containerClone", RecFuel: "2 * GoDom.sizeC $0 + 2", RecGroup: "clone"},
+	{Pkg: "dom", Name: "Clone", Lean: "Clone", Dispatch: "Node", RecFuel: "2 * GoDom.sizeN $1 + 1", RecGroup: "clone"},
 	// diff/diff.go  [C07]
 	{Pkg: "diff", Name: "appendMod", Lean: "appendMod", Acc: "res"},
 	{Pkg: "diff", Name: "flattenLeaf", Lean: "flattenLeaf", Acc: "res"},
@@ -101,6 +110,8 @@ func domKind(t types.Type) string {
 				return "cont"
 			case "listImpl", "listBuilderImpl":
 				return "list"
+			case "leaf":
+				return "leaf"
 			}
 		}
 	case *types.Map:
@@ -354,6 +365,20 @@ func (x *xl) domMethod(c *ast.CallExpr, sel *ast.SelectorExpr) ([]string, string
 			b, t := x.bindTmp(b, strings.Join(args, " "))
 			return b, t, true, nil
 		}
+		if dn, ok := x.w.dispDone[m]; ok {
+			// the dispatcher generated earlier in this file
+			args := []string{dn, r}
+			if m == "Equals" {
+				ba, sa, err := x.exprTo(c.Args[0], x.nodeType(), true)
+				if err != nil {
+					return nil, "", true, err
+				}
+				b = append(b, ba...)
+				args = append(args, sa)
+			}
+			b, t := x.bindTmp(b, strings.Join(args, " "))
+			return b, t, true, nil
+		}
 		if m == "Clone" {
 			return b, "(GoDom.clone " + r + ")", true, nil
 		}
@@ -379,6 +404,13 @@ func (x *xl) domField(y *ast.SelectorExpr) ([]string, string, bool, error) {
 		}
 		return b, "(GoDom.children " + r + ")", true, nil
 	}
+	if k == "leaf" && y.Sel.Name == "value" {
+		b, r, err := x.domRecv(y.X)
+		if err != nil {
+			return nil, "", true, err
+		}
+		return b, "(GoDom.value " + r + ")", true, nil
+	}
 	return nil, "", false, nil
 }
 
@@ -401,24 +433,39 @@ func (x *xl) typeAssert(y *ast.TypeAssertExpr) ([]string, string, error) {
 	return b, t, nil
 }
 
-// domNew: `&listBuilderImpl{}`, `&containerBuilderImpl{}`, `map[string]Node{}`, dom.ListNode(), dom.Builder().Container()
-func (x *xl) domNew(e ast.Expr) (string, bool) {
+// domNew: `&listBuilderImpl{}`, `&containerBuilderImpl{}`, `map[string]Node{}`, `&leaf{value: v}`
+func (x *xl) domNew(e ast.Expr) ([]string, string, bool, error) {
 	if u, ok := e.(*ast.UnaryExpr); ok && u.Op == token.AND {
 		if cl, ok := u.X.(*ast.CompositeLit); ok && len(cl.Elts) == 0 {
 			switch domKind(x.typeOf(e)) {
 			case "list":
-				return "GoDom.newList", true
+				return nil, "GoDom.newList", true, nil
 			case "cont":
-				return "GoDom.newContainer", true
+				return nil, "GoDom.newContainer", true, nil
 			}
+		}
+		if cl, ok := u.X.(*ast.CompositeLit); ok && len(cl.Elts) == 1 && domKind(x.typeOf(e)) == "leaf" {
+			// &leaf{value: v}
+			kv, ok := cl.Elts[0].(*ast.KeyValueExpr)
+			if !ok {
+				return nil, "", true, x.errf(e, "positional leaf literal")
+			}
+			if id, ok := kv.Key.(*ast.Ident); !ok || id.Name != "value" || domKind(x.typeOf(kv.Value)) != "any" {
+				return nil, "", true, x.errf(e, "leaf literal: field other than value")
+			}
+			b, v, err := x.expr(kv.Value)
+			if err != nil {
+				return nil, "", true, err
+			}
+			return b, "(GoDom.mkLeaf " + v + ")", true, nil
 		}
 	}
 	if cl, ok := e.(*ast.CompositeLit); ok && len(cl.Elts) == 0 {
 		if _, isMap := x.typeOf(e).Underlying().(*types.Map); isMap && domKind(x.typeOf(e)) == "cont" {
-			return "GoDom.newContainer", true
+			return nil, "GoDom.newContainer", true, nil
 		}
 	}
-	return "", false
+	return nil, "", false, nil
 }
 
 // numeric conversions: uint(i), int(math.Max(float64(a), float64(b)))
@@ -546,6 +593,13 @@ func (x *xl) domSimple(s ast.Stmt) ([]string, bool, error) {
 		} else if k == "cont" {
 			tbl = map[string]ent{"AddValue": {"GoDom.addValue", []string{"string", "node"}}, "Remove": {"GoDom.remove", []string{"string"}}}
 		}
+		if k == "cont" && sel.Sel.Name == "ensureChildren" && len(c.Args) == 0 {
+			n, _, err := x.localBuilder(sel.X, sel.Sel.Name)
+			if err != nil {
+				return nil, true, err
+			}
+			return []string{fmt.Sprintf("let %s := (GoDom.ensureChildren %s)", n, n)}, true, nil
+		}
 		e, ok := tbl[sel.Sel.Name]
 		if !ok || len(c.Args) != len(e.args) {
 			return nil, true, x.errf(c, "statement call of method %s on a DOM value", sel.Sel.Name)
@@ -590,6 +644,22 @@ func (x *xl) domSimple(s ast.Stmt) ([]string, bool, error) {
 			// m[k] = v on a local Go map
 			if _, isMap := x.typeOf(l.X).Underlying().(*types.Map); !isMap || domKind(x.typeOf(l.X)) != "cont" {
 				return nil, false, nil
+			}
+			if fs, ok := l.X.(*ast.SelectorExpr); ok && fs.Sel.Name == "children" && domKind(x.typeOf(fs.X)) == "cont" {
+				// c2.children[k] = v on a local builder
+				n, _, err := x.localBuilder(fs.X, "map assignment")
+				if err != nil {
+					return nil, true, err
+				}
+				bk, k, err := x.expr(l.Index)
+				if err != nil {
+					return nil, true, err
+				}
+				bv, v, err := x.exprTo(y.Rhs[0], x.nodeType(), false)
+				if err != nil {
+					return nil, true, err
+				}
+				return append(append(bk, bv...), fmt.Sprintf("let %s := (GoDom.setChildren %s (GoDom.mapSet (GoDom.children %s) %s %s))", n, n, n, k, v)), true, nil
 			}
 			n, _, err := x.localBuilder(l.X, "map assignment")
 			if err != nil {
@@ -838,6 +908,9 @@ func (w *xlWorld) registerRecs(fs []xlFunc, ps []*xlPkg, fds []*ast.FuncDecl) er
 			}
 			continue
 		}
+		if f.Dispatch != "" {
+			continue
+		}
 		fn := ps[i].info.Defs[fds[i].Name].(*types.Func)
 		sig := fn.Type().(*types.Signature)
 		pts, res, err := w.sigLeanTypes(f, sig)
@@ -846,6 +919,13 @@ func (w *xlWorld) registerRecs(fs []xlFunc, ps []*xlPkg, fds []*ast.FuncDecl) er
 		}
 		w.recs[fn] = &xlRec{lean: f.Lean + "_rec", param: "rec_" + f.Lean, f: f, sig: sig,
 			typ: "(" + strings.Join(append(pts, "Go.Res "+res), " → ") + ")"}
+	}
+	for i := range fs {
+		if fs[i].Dispatch != "" {
+			if err := w.registerDispatch(&fs[i], ps[i]); err != nil {
+				return fmt.Errorf("%s.%s: %v", fs[i].Pkg, fs[i].Name, err)
+			}
+		}
 	}
 	return nil
 }
